@@ -84,35 +84,60 @@ def main():
             print("VIOLATION property=%s replay=%s\n   [%s] %s" % (PID, chk.replay, key, msg))
         return 1 if c14 else 0
 
-    # 1. the design: every stall the model can reach has the known hand-off shape
-    cfgs = [("MC_RpycServe_2.cfg", "exhaustive: 2 clients; OnlyKnownStalls, NoHang, WillBeWoken"),
-            ("MC_RpycServe_1bg.cfg", "exhaustive: 1 client + background thread; OnlyKnownStalls")]
-    if chk.thorough:
-        cfgs += [("MC_RpycServe_2bg.cfg", "exhaustive: 2 clients + background thread"),
-                 ("MC_RpycServe_3.cfg", "exhaustive: 3 clients")]
-    for cfg, what in cfgs:
-        res = tlc.require_ok(tlc.run_tlc("MC_RpycServe", cfg, coverage=True, timeout=3000), cfg)
-        if res.violation:
-            raise tlc.MachineryError("specification RpycServe violates %s under %s" % (res.violation, cfg))
-        chk.add_tlc(res, what)
-        if res.coverage.get("Expire", (0, 0))[1] == 0:
-            raise tlc.MachineryError("vacuity: the stall (Expire) is never reached in %s" % cfg)
-    # 2. the property as stated (NoStall) fails in the model of the pinned code; follow TLC's counterexample in the code
-    res = tlc.require_ok(tlc.run_tlc("MC_RpycServe", "MC_RpycServe_nostall.cfg", workers=1), "nostall")
-    chk.add_tlc(res, "NoStall on 1 client + background thread: expected to fail in the model (notify before dispatch)")
-    if res.violation != "NoStall":
-        raise tlc.MachineryError("expected the model of the pinned serve() to violate NoStall, got %r" % res.violation)
-    stalled, labels = replay_counterexample(chk, res, "1bg")
-    chk.sample({"kind": "TLC counterexample to NoStall replayed on the real code", "labels": labels,
-                "implementation_stalls": stalled})
-    if stalled is not None:
-        chk.validated()
-        for name, where, rb, r, left in stalled:
-            key = "stall:handoff:poll" if (rb != name and where == "poll") else "stall:%s:%s" % (
-                "own" if rb == name else "other", where)
-            chk.violation(key, "C14 waiter %s sleeps in %s for another %s s although the reply to %s was already processed "
-                          "by %s (TLC counterexample replayed)" % (name, where, left, r, rb),
-                          {"mode": "tlc-counterexample", "labels": labels})
+    repaired = sc.handoff_repaired()
+    if repaired:
+        # 1. the design of the working tree's serve() (replies in transit counted, the waiter looks again before it sleeps on
+        #    the transport, waiters notified again after the dispatch): NoStall holds as stated
+        cfgs = [("MC_RpycServe_2_h.cfg", "exhaustive: 2 clients; NoStall, NoHang, WillBeWoken, Termination"),
+                ("MC_RpycServe_1bg_h.cfg", "exhaustive: 1 client + background thread; NoStall"),
+                ("MC_RpycServe_2bg_h.cfg", "exhaustive: 2 clients + background thread; NoStall")]
+        if chk.thorough:
+            cfgs += [("MC_RpycServe_3_h.cfg", "exhaustive: 3 clients; NoStall")]
+        for cfg, what in cfgs:
+            res = tlc.require_ok(tlc.run_tlc("MC_RpycServe", cfg, coverage=True, timeout=3000), cfg)
+            if res.violation:
+                raise tlc.MachineryError("specification RpycServe (repaired serve) violates %s under %s" % (res.violation, cfg))
+            chk.add_tlc(res, what)
+            for a in ("SPrecheck", "SRecheck", "SGiveUp", "DNotify"):
+                if res.coverage.get(a, (0, 0))[1] == 0:
+                    raise tlc.MachineryError("vacuity: action %s never taken in %s" % (a, cfg))
+        # 2. the pinned design (notify before dispatch, no second look): TLC's counterexample to NoStall, kept as the record of
+        #    what was repaired; the repaired code can no longer follow it
+        res = tlc.require_ok(tlc.run_tlc("MC_RpycServe", "MC_RpycServe_nostall.cfg", workers=1), "nostall")
+        chk.add_tlc(res, "NoStall on 1 client + background thread in the model of the PINNED serve(): counterexample (the hand-off "
+                    "stall that was repaired)")
+        if res.violation != "NoStall":
+            raise tlc.MachineryError("expected the model of the pinned serve() to violate NoStall, got %r" % res.violation)
+    else:
+        # 1. the design: every stall the model can reach has the known hand-off shape
+        cfgs = [("MC_RpycServe_2.cfg", "exhaustive: 2 clients; OnlyKnownStalls, NoHang, WillBeWoken"),
+                ("MC_RpycServe_1bg.cfg", "exhaustive: 1 client + background thread; OnlyKnownStalls")]
+        if chk.thorough:
+            cfgs += [("MC_RpycServe_2bg.cfg", "exhaustive: 2 clients + background thread"),
+                     ("MC_RpycServe_3.cfg", "exhaustive: 3 clients")]
+        for cfg, what in cfgs:
+            res = tlc.require_ok(tlc.run_tlc("MC_RpycServe", cfg, coverage=True, timeout=3000), cfg)
+            if res.violation:
+                raise tlc.MachineryError("specification RpycServe violates %s under %s" % (res.violation, cfg))
+            chk.add_tlc(res, what)
+            if res.coverage.get("Expire", (0, 0))[1] == 0:
+                raise tlc.MachineryError("vacuity: the stall (Expire) is never reached in %s" % cfg)
+        # 2. the property as stated (NoStall) fails in the model of the pinned code; follow TLC's counterexample in the code
+        res = tlc.require_ok(tlc.run_tlc("MC_RpycServe", "MC_RpycServe_nostall.cfg", workers=1), "nostall")
+        chk.add_tlc(res, "NoStall on 1 client + background thread: expected to fail in the model (notify before dispatch)")
+        if res.violation != "NoStall":
+            raise tlc.MachineryError("expected the model of the pinned serve() to violate NoStall, got %r" % res.violation)
+        stalled, labels = replay_counterexample(chk, res, "1bg")
+        chk.sample({"kind": "TLC counterexample to NoStall replayed on the real code", "labels": labels,
+                    "implementation_stalls": stalled})
+        if stalled is not None:
+            chk.validated()
+            for name, where, rb, r, left in stalled:
+                key = "stall:handoff:poll" if (rb != name and where == "poll") else "stall:%s:%s" % (
+                    "own" if rb == name else "other", where)
+                chk.violation(key, "C14 waiter %s sleeps in %s for another %s s although the reply to %s was already processed "
+                              "by %s (TLC counterexample replayed)" % (name, where, left, r, rb),
+                              {"mode": "tlc-counterexample", "labels": labels})
     # 3. exploration of the real code: any stall with another shape is a violation
     plan = [("1bg", 150, 600, 2), ("2", 150, 500, 2), ("2bg", 100, 300, 2)]
     if chk.thorough:
@@ -120,16 +145,18 @@ def main():
     for cfgname, nr, nd, bound in plan:
         traces = sc.explore(chk, cfgname, nr, nd, bound, False, on_result)
         r = sc.validate(chk, cfgname, [norm(t) for t in traces])
-        if r and r[0] == "OnlyKnownStalls":
-            chk.violation("trace-invariant:OnlyKnownStalls", "C14 an implementation trace reaches a stall that is not of the "
-                          "known hand-off shape", {"mode": "trace", "config": cfgname, "tlc": r[1].stdout[-1500:]})
+        if r and r[0] in ("OnlyKnownStalls", "NoStall"):
+            chk.violation("trace-invariant:" + r[0], "C14 an implementation trace reaches a stall%s" % (
+                "" if r[0] == "NoStall" else " that is not of the known hand-off shape"),
+                {"mode": "trace", "config": cfgname, "tlc": r[1].stdout[-1500:]})
     if chk.thorough:
         for cfgname in ("1bg", "2"):
             sc.explore(chk, cfgname, 250, 0, 0, True, on_result)
     chk.assumptions += [
         "a stall = a client thread blocked (poll / condition wait) at a moment when every thread is blocked, nothing is in "
         "flight and its own result has been published; it then only returns by its 30 s timeout (virtual time)",
-        "known_findings.json lists the hand-off stall of the pinned code; stalls of any other shape are violations"]
+        "the hand-off stall of the pinned code was repaired (known_findings.json, fixed): any stall is a violation; the "
+        "specification keeps the pinned variant (Handoff = FALSE) for its counterexample"]
     return chk.finish(rule="evaluations = executions of the real code under a controlled schedule (+ steps of the replayed "
                       "counterexample); distinct = distinct schedules")
 
